@@ -11,7 +11,17 @@ OVERLAYS = [
     ("src/hashing/keccak.rs", "verif_keccak", "hash_keccak.rs", None, "crate::hashing::keccak"),
     ("src/hashing/blake2b.rs", "verif_blake2b", "hash_blake2b.rs", None, "crate::hashing::blake2b"),
     ("src/hashing/blake2s.rs", "verif_blake2s", "hash_blake2s.rs", None, "crate::hashing::blake2s"),
+    # native execution entries for mirsym kernel counterexamples (not proof harnesses)
+    ("src/hashing/sha2/mod.rs", "verif_kn_sha2", "knative_sha2.rs", None, "crate::hashing::sha2"),
+    ("src/hashing/sha1.rs", "verif_kn_sha1", "knative_sha1.rs", None, "crate::hashing::sha1"),
+    ("src/hashing/sha3.rs", "verif_kn_sha3", "knative_sha3.rs", None, "crate::hashing::sha3"),
+    ("src/hashing/ripemd160.rs", "verif_kn_rmd", "knative_rmd.rs", None, "crate::hashing::ripemd160"),
+    ("src/hashing/blake2/mod.rs", "verif_kn_blake2", "knative_blake2.rs", None, "crate::hashing::blake2"),
 ]
+
+EXPORTS = {
+    "crate::hashing::blake2::verif_kn_blake2": ("src/hashing/mod.rs", "self::blake2::verif_kn_blake2", "verif_kn_blake2_x", None, "crate::hashing"),
+}
 
 _STUBS = [
     "recorder stubs (loop-free, return ARBITRARY chaining values, log their arguments): sha2::impl256::digest_block, sha2::impl512::digest_block, "
@@ -26,8 +36,11 @@ _STUBS = [
     "BLAKE2: two-word byte counter below 2^64 (2s) / 2^128 (2b) bytes (t[1] < MAX); wraps of the low counter word inside a step are INCLUDED (carry asserted)",
 ]
 
+import mirsym_extra
+
 PROPS = {}
 PROPS["C01"] = dict(
+    extra=[mirsym_extra.make_extra("C01")],
     prefixes=["c01_"],
     level="model_checking",
     bounds="GLUE of all 25 fixed variants + BLAKE2b/s with every digest length 1..=64/32 and key length 0..=64/32 (both symbolic), compression functions / "
@@ -37,12 +50,14 @@ PROPS["C01"] = dict(
            "and the 128-byte-block engines SHA-512 / BLAKE2b <= 130 and <= 258); sponge absorb step on the generic engine at rate 16 with <= 19 bytes (thorough: real rates "
            "72 and 144 with <= 2*rate+3 resp. rate+2); finalisation (padding, length field, domain separation, last-block flag, counter, output serialisation/truncation): all states, "
            "no length bound; end-to-end one-shot wrappers with stand-in kernels: messages <= block+1 bytes (Merkle-Damgard), <= 2 bytes (sponge), <= 3 bytes (BLAKE2)",
-    outside="the compression functions / permutation themselves (SHA-256/512/SHA-1/RIPEMD-160 rounds, keccak_f, BLAKE2 G rounds, constants K/RC/SIGMA): decided by the kernel engine, not here; "
-            "SSE4.1/AVX/AVX2 kernel variants (not compilable under Kani); inputs longer than the per-call bound in ONE call (longer messages are compositions of steps: the post-state of "
+    outside="SSE4.1/AVX/AVX2/aarch64 kernel variants (selected only by -C target-feature; not compilable under Kani, intrinsics not modelled by mirsym): only the portable kernels are decided; "
+            "the composition `glue with arbitrary kernel` + `kernel == standard` is by reasoning (both universally quantified), not one end-to-end query; inputs longer than the per-call bound in ONE call (longer messages are compositions of steps: the post-state of "
             "a step is again an arbitrary valid state); sponge absorb step at the real rates 104 and 136 (same generic code as rate 16/72/144); message lengths beyond the algorithms' own limits",
     assumptions=_STUBS,
     trusted=["harness/incrate/hash_spec.rs: transcription of FIPS 180-4 5.1/5.3/6.x, FIPS 202 B.2, RFC 7693 2.5/3.3, RIPEMD-160 padding "
-             "(validated natively against the crate's real digests at the padding boundaries: tools note in NOTES-hash.md)"],
+             "(validated natively against the crate's real digests at the padding boundaries: tools note in NOTES-hash.md)",
+             "mirsym/bvspecs.py: transcription of the compression functions (FIPS 180-4 6.1.2/6.2.2/6.4.2, FIPS 202 3.2-3.3, RFC 7693 3.2, RIPEMD-160 app. A), self-tested against python hashlib; "
+             "mirsym's MIR interpreter and its canonical BV form (bvdomain.py)"],
     explanation="digest(m) = out(fold(F, IV, pad(m))): IV tables, padding/length field/domain separation, block sequencing and chaining, counters and flags, output serialisation and "
                 "truncation are decided for every variant by inductive steps from arbitrary states with the kernel F uninterpreted (recorder stubs); the composition is checked end to end "
                 "on short messages with stand-in kernels",
@@ -50,9 +65,11 @@ PROPS["C01"] = dict(
                "(SHA-2 IVs recomputed from the square roots of the primes), update compresses exactly the complete blocks of pending||input in order with chained states and keeps the tail, "
                "finalisation emits exactly the standard's padded tail (0x80, zeros, 64/128-bit length in the right byte order; SHA-3 0x06..0x80 / Keccak 0x01..0x80 incl. the single-byte "
                "0x86/0x81; BLAKE2 zero fill, total byte count, last flag, key block, parameter word) and serialises/truncates the final state as specified. Because the kernels return "
-               "arbitrary values the result holds for every kernel; the kernels' equivalence with the standards is a separate obligation.",
-    level_note="Kernels are stubbed (their correctness is NOT part of this evidence). Per-call input lengths bounded as listed; arbitrary start states make the step lemmas closed under composition. "
-               "Domain: message length below the algorithms' limits; BLAKE2 counter wrap excluded here and reported under C20.",
+               "arbitrary values the result holds for every kernel. The kernels themselves are decided by the mirsym BV engine: the MIR of sha1::digest_block_u32, impl256/impl512 reference digest_block_u*, "
+               "ripemd160::process_msg_block, sha3::keccak_f and blake2::reference::compress_b/_s (last and non-last) is executed symbolically for ALL chaining values and ALL blocks and each output word is "
+               "shown equal to the standard's compression function (FIPS 180-4, FIPS 202, RFC 7693, RIPEMD-160 app. A), the transcriptions being self-tested against hashlib on every run.",
+    level_note="In the CBMC harnesses kernels are stubbed; kernel == standard is the separate mirsym obligation listed in the samples (portable kernels only). Per-call input lengths bounded as listed; arbitrary start states make the step lemmas closed under composition. "
+               "Domain: message length below the algorithms' limits; BLAKE2 low-counter-word wrap included.",
 )
 PROPS["C02"] = dict(
     prefixes=["c02_"],
